@@ -28,6 +28,11 @@ ASSUMPTIONS = ["parents carry sequence: whole chromosome or plus-strand chunk co
                "CDS frames after incorporation are not part of this property (C05); the CDS sequence compared is "
                "that of its location",
                "VCF records of one chromosome are contiguous (as in a sorted VCF)"]
+def lean_line(line):
+    """` @v`: the variant objects of a collection were used on another reference before (implementation side only)"""
+    return line[:-3] if line.endswith(" @v") else line
+
+
 MODEL_OPS = None
 ERR_CLASS = False
 BASES = "ACGT"
@@ -196,6 +201,16 @@ def ops_for(rng, ptok, off, ref, vs, coll, st, bl, which):
 
 
 def cases(run):
+    """`_cases`, plus ` @v` twins of lines whose variants form a collection (token `N <n>` after the reference)"""
+    for ln in _cases(run):
+        yield ln
+        t = ln.split(" ", 5)
+        if len(t) > 4 and t[0] in ("lift", "altseq", "incF", "incC", "incT") and t[3] == "N" and run.rng.random() < 0.2:
+            run.count("prior-use-twin")
+            yield ln + " @v"
+
+
+def _cases(run):
     global EXHAUSTIVE_NOTE
     rng = run.rng
     quick = run.tier == "quick"
